@@ -237,12 +237,34 @@ pub fn c17(quick: bool) -> PropRun {
             }
         }
     }
+    // a client disconnects and reconnects from the same address while the server's closed entry still lingers (20 s); later, when the
+    // old entry's time-out has fired, another client asks for the last free slot
+    for (ma, mt) in [(1usize, 1usize), (1, 2), (2, 2)] {
+        let mut cfg = EwCfg::new(3); cfg.max_active = ma; cfg.max_total = mt;
+        let mut script = vec![at(0, Act::Connect(0)), after_c(0, 2, Act::CDisconnectNow(0)), at(8, Act::Forget(0)), at(9, Act::Connect(0)), at(14, Act::CSend(0, 0, SendMode::Reliable, 40))];
+        if ma == 2 { script.push(at(2, Act::Connect(2))); }
+        script.push(at(16 + 52, Act::Connect(1)));   // 26 s after the reconnect: the first connection's closed time-out (20 s) has fired
+        script.push(at(16 + 60, Act::CSend(0, 0, SendMode::Reliable, 41)));
+        let mut env = EwEnv::basic(if quick { 5 } else { 8 }, 16 + 90);
+        env.fates = DF_BASIC; env.fate_types = &[0, 1, 2, 4, 5]; env.deltas = &[100, 2000]; env.fair_delta = 500; env.stop_when_done = false;
+        scs.push(sc("C17.reconnect-within-linger", &cfg, script, env, if quick { 1 } else { 2 }, EO_C17 | EO_C08 | EO_C07));
+    }
     PropRun { level: "model_checking", scenarios: scs, units: vec![], replay_case: None, summary: ew_summary(
         "limit ledger on the server's own event stream and tracked-connection count at every round of every explored execution; all interleavings of the handshake datagrams of 2-3 clients are enumerated completely (free choices), 4 clients deviation-bounded",
         json!({"limits(max_active,max_total)": "(1,1) (1,2) (1,3) (2,2) (2,3) (2,4) (3,3)", "clients": [2, 3, 4], "handshake_fates": "deliver / hold 2 rounds / drop on SYN, SYN-ACK, ACK", "endings": "client disconnect, server disconnect, Server::drop, vanished client (time-out)"})) }
 }
 
 // ------------------------------------------------------------------------------------------------
+/// Letters of the attacker alphabet: (name, datagram, number of copies sent in the same round).
+pub fn raw_alphabet_rep() -> Vec<(String, Vec<u8>, usize)> {
+    let base = raw_alphabet();
+    let mut v: Vec<(String, Vec<u8>, usize)> = base.iter().map(|(n, b)| (n.to_string(), b.clone(), 1)).collect();
+    for (n, b) in base.iter() {
+        if ["valid SYN", "SYN other nonce", "SYN 1471 bytes", "SYN wrong version", "SYN-ACK", "ACK wrong nonce", "error", "disconnect", "disconnect-ack", "data", "sync", "ack"].contains(n) { v.push((format!("{} x200", n), b.clone(), 200)); }
+    }
+    v
+}
+
 pub fn raw_alphabet() -> Vec<(&'static str, Vec<u8>)> {
     let syn = |v: u8, n: u32, mp: u32, ma: u32| fw(Frame::HandshakeSynFrame(HandshakeSynFrame { version: v, nonce: n, max_receive_rate: 1_000_000, max_packet_size: mp, max_receive_alloc: ma }));
     let crc_fix = |mut b: Vec<u8>| -> Vec<u8> { let n = b.len(); let c = uflow::verif::crc_compute(&b[..n - 4]); b[n - 4..].copy_from_slice(&c.to_be_bytes()); b };
@@ -276,8 +298,8 @@ pub fn c18(quick: bool) -> PropRun {
         for (full, ma, mt) in [(false, 32usize, 4096usize), (true, 1, 1)] {
             let name = format!("C18.seq|full{}|len{}|reduced{}", full as u8, len, reduced as u8);
             let run = move |ch: &mut Chooser| -> ExecResult {
-                let mut alpha = raw_alphabet();
-                if reduced { alpha.retain(|a| ["valid SYN", "SYN other nonce", "SYN 1471 bytes", "SYN wrong version", "SYN config refused (packet too big)", "ACK wrong nonce", "garbage"].contains(&a.0)); }
+                let mut alpha = raw_alphabet_rep();
+                if reduced { alpha.retain(|a| ["valid SYN", "SYN other nonce", "SYN 1471 bytes", "SYN wrong version", "SYN config refused (packet too big)", "ACK wrong nonce", "garbage", "ACK wrong nonce x200", "valid SYN x200", "disconnect x200"].contains(&a.0.as_str())); }
                 let waits: &[usize] = if reduced { &[1, 4, 46] } else { &[1, 4, 42, 46] }; // rounds of 500 ms: 0.5 s, 2 s, 21 s, 23 s
                 let mut cfg = EwCfg::new(1); cfg.max_active = ma; cfg.max_total = mt;
                 let mut script: Vec<EwOp> = Vec::new();
@@ -287,7 +309,7 @@ pub fn c18(quick: bool) -> PropRun {
                     let a = ch.free(alpha.len() + 1);
                     if a == 0 { break; }
                     let who = if pos > 0 { ch.free(2) } else { 0 };
-                    script.push(at(round, Act::Raw(who, alpha[a - 1].1.clone())));
+                    for _ in 0..alpha[a - 1].2 { script.push(at(round, Act::Raw(who, alpha[a - 1].1.clone()))); }
                     let w = ch.free(waits.len());
                     desc.push(format!("{}@r{} from raw{} then wait {} rounds", alpha[a - 1].0, round, who, waits[w]));
                     round += waits[w];
@@ -307,7 +329,7 @@ pub fn c18(quick: bool) -> PropRun {
     }
     PropRun { level: "fault_enumeration", scenarios: scs, units: vec![], replay_case: None, summary: Summary {
         rule: "every sequence of up to `len` raw datagrams from two spoofable addresses with waits of 0.5/2/21/23 s between them is sent to a real Server (once with room, once full and serving an honest client); a byte ledger per address is evaluated over all datagrams of the execution; distinct = distinct (sequence, outcome)".into(),
-        bounds: json!({"plans(len,reduced_alphabet)": plans, "alphabet": raw_alphabet().iter().map(|x| x.0).collect::<Vec<_>>(), "reduced_alphabet": ["valid SYN", "SYN other nonce", "SYN 1471 bytes", "SYN wrong version", "SYN config refused (packet too big)", "ACK wrong nonce", "garbage"], "waits_rounds_of_500ms": [1, 4, 42, 46], "server": ["default limits", "full (1 connection, taken by an honest client)"]}),
+        bounds: json!({"plans(len,reduced_alphabet)": plans, "alphabet": raw_alphabet_rep().iter().map(|x| x.0.clone()).collect::<Vec<_>>(), "reduced_alphabet": ["valid SYN", "SYN other nonce", "SYN 1471 bytes", "SYN wrong version", "SYN config refused (packet too big)", "ACK wrong nonce", "garbage", "ACK wrong nonce x200", "valid SYN x200", "disconnect x200"], "bursts": "12 letters also as bursts of 200 copies in one round", "waits_rounds_of_500ms": [1, 4, 42, 46], "server": ["default limits", "full (1 connection, taken by an honest client)"]}),
         assumptions: A_EW.iter().map(|s| s.to_string()).collect(), witness_names: vec!["the server replied to an unverified address", "SYN-ACK retransmissions to an unverified address"], extra: json!({}), exhaustive: true } }
 }
 
